@@ -5,7 +5,7 @@
      1 a.md                 2 b.txt               3 big.md (L+1 bytes)   4 eq.md (exactly L bytes)
      5 ign.md (matched by the rule "ign.md" of .flowmarkignore)          6 node_modules/x.md
      7 sub/c.md             8 sub/deep/d.md       9 drafts/e.md         13 sub/f.txt
-    17 other/sub/c2.md     18 other/keep.md   (a second project directory with its own .flowmarkignore: "sub/")
+    17 other/sub/c2.md     18 other/keep.md     19 other/sub/ign.md   (a second project directory with its own .flowmarkignore: "sub/")
     10 ln_in.md  -> a.md (symlink to a file inside)     11 ln_out.md -> a file outside the tree ("OUT")
     12 ln_dangling.md -> nothing                        ln_dir -> sub (symlink to a directory)
     16 ln_big.md -> big.md (symlink to the oversized file)
@@ -25,7 +25,7 @@ CONSTANTS MaxArgs, GlobFilters, WalkSkipsLinks, ForceAppliesIgnore, DoDump
 VARIABLES st, args, k, seen, result, pc
 vars == <<st, args, k, seen, result, pc>>
 
-U == [i \in 1..18 |->
+U == [i \in 1..19 |->
        CASE i = 1  -> [name |-> "a.md", dir |-> <<>>, ext |-> "md", size |-> "small", link |-> "none", to |-> 0]
          [] i = 2  -> [name |-> "b.txt", dir |-> <<>>, ext |-> "txt", size |-> "small", link |-> "none", to |-> 0]
          [] i = 3  -> [name |-> "big.md", dir |-> <<>>, ext |-> "md", size |-> "big", link |-> "none", to |-> 0]
@@ -47,9 +47,12 @@ U == [i \in 1..18 |->
          \* a second project directory with its OWN .flowmarkignore (rule "sub/"): the ignore file that counts is the one found from the root of
          \* the walk / glob, so other/sub/c2.md is dropped when reached from "other" and kept when reached from "."
          [] i = 17 -> [name |-> "c2.md", dir |-> <<"other", "sub">>, ext |-> "md", size |-> "small", link |-> "none", to |-> 0]
-         [] i = 18 -> [name |-> "keep.md", dir |-> <<"other">>, ext |-> "md", size |-> "small", link |-> "none", to |-> 0]]
-Ids == 1..18
-Args == {".", "sub", "ln_dir", "drafts", "other", "other/**/*.md", "a.md", "./a.md", "ABS/sub/../a.md", "node_modules/x.md", "big.md", "ln_big.md", "ign.md", "drafts/e.md", "*.md", "**/*.md", "sub/*"}
+         [] i = 18 -> [name |-> "keep.md", dir |-> <<"other">>, ext |-> "md", size |-> "small", link |-> "none", to |-> 0]
+         \* dropped by the tree's rule "ign.md" when reached from ".", by other's rule "sub/" when reached from "other", and kept when reached from
+         \* "other/sub" (the nearest ignore file upwards is other's, whose "sub/" names nothing below that root)
+         [] i = 19 -> [name |-> "ign.md", dir |-> <<"other", "sub">>, ext |-> "md", size |-> "small", link |-> "none", to |-> 0]]
+Ids == 1..19
+Args == {".", "sub", "ln_dir", "drafts", "other", "other/sub", "other/**/*.md", "a.md", "./a.md", "ABS/sub/../a.md", "node_modules/x.md", "big.md", "ln_big.md", "ign.md", "drafts/e.md", "*.md", "**/*.md", "sub/*"}
 Settings == [extinc : BOOLEAN, excl : BOOLEAN, extexcl : {"none", "base", "path"}, force : BOOLEAN, limit : BOOLEAN, toolign : BOOLEAN]
 
 Target(i) == IF U[i].link = "none" THEN i ELSE U[i].to          \* identity after Path.resolve()
@@ -64,16 +67,17 @@ InExcl(i, base) == \/ \E j \in (Len(base) + 1)..Len(U[i].dir) : U[i].dir[j] \in 
                    \/ (st.extexcl = "path" /\ IsPrefix(<<"sub", "deep">>, SubSeq(U[i].dir, Len(base) + 1, Len(U[i].dir))))
 \* the tool ignore file is looked up from the ROOT of the walk / glob upwards (first one found): below "other" that is other/.flowmarkignore
 \* (rule "sub/"), elsewhere the tree's own (rule "ign.md")
-ToolIgnAt(i, base) == st.toolign /\ (IF IsPrefix(<<"other">>, base) THEN IsPrefix(<<"other", "sub">>, U[i].dir) ELSE U[i].name = "ign.md")
+ToolIgnAt(i, base) == st.toolign /\ (IF IsPrefix(<<"other">>, base) THEN \E j \in (Len(base) + 1)..Len(U[i].dir) : U[i].dir[j] = "sub"
+                                      ELSE U[i].name = "ign.md")
 ToolIgn(i) == ToolIgnAt(i, <<>>)
 TooBig(i) == st.limit /\ U[i].size = "big"
 Filters(i, base) == IncludeOK(i) /\ ~InExcl(i, base) /\ ~ToolIgnAt(i, base) /\ ~TooBig(i)
 
 \* ---------------- what each argument denotes ----------------
-DirOf(a) == CASE a = "." -> <<>> [] a = "sub" -> <<"sub">> [] a = "ln_dir" -> <<"sub">> [] a = "drafts" -> <<"drafts">> [] a = "other" -> <<"other">>   \* a walk root that is itself an excluded directory name
+DirOf(a) == CASE a = "." -> <<>> [] a = "sub" -> <<"sub">> [] a = "ln_dir" -> <<"sub">> [] a = "drafts" -> <<"drafts">> [] a = "other" -> <<"other">> [] a = "other/sub" -> <<"other", "sub">>   \* a walk root that is itself an excluded directory name
 FileOf(a) == CASE a = "a.md" -> 1 [] a = "./a.md" -> 1 [] a = "ABS/sub/../a.md" -> 1 [] a = "node_modules/x.md" -> 6 [] a = "big.md" -> 3 [] a = "ln_big.md" -> 16    \* ABS/..: absolute, not canonical (<tree>/sub/../a.md)
                [] a = "ign.md" -> 5 [] a = "drafts/e.md" -> 9
-IsDirArg(a) == a \in {".", "sub", "ln_dir", "drafts", "other"}
+IsDirArg(a) == a \in {".", "sub", "ln_dir", "drafts", "other", "other/sub"}
 IsFileArg(a) == a \in {"a.md", "./a.md", "ABS/sub/../a.md", "node_modules/x.md", "big.md", "ln_big.md", "ign.md", "drafts/e.md"}
 IsGlobArg(a) == a \in {"*.md", "**/*.md", "sub/*", "other/**/*.md"}
 GlobRoot(a) == IF a = "other/**/*.md" THEN <<"other">> ELSE <<>>
